@@ -160,7 +160,7 @@ func (ld *Loaded) intrinsic(fn *ssa.Function) intrinsicFn {
 		name = o.String()
 	}
 	h := intrinsics[name]
-	if h == nil {
+	if h == nil && !(fn.Name() == "init" && fn.Signature.Recv() == nil) && !strings.HasPrefix(fn.Name(), "init#") {
 		for _, pi := range prefixIntrinsics {
 			if strings.HasPrefix(name, pi.prefix) {
 				h = pi.fn
